@@ -237,12 +237,14 @@ class Exec:
             return
         if isinstance(s, ast.Assign):
             v = self.ev(s.value, g)
+            g = self.live(g)          # an exception raised while evaluating the value skips the store
             for t in s.targets:
                 self.assign(t, v, g)
             return
         if isinstance(s, ast.AugAssign):
             cur = self.ev(s.target, g)
             v = self.binop(s.op, cur, self.ev(s.value, g))
+            g = self.live(g)
             self.assign(s.target, v, g)
             return
         if isinstance(s, ast.If):
